@@ -130,10 +130,10 @@ Theorem C11_history_independence : forall h b c argv,
 Proof. exact history_independence. Qed.
 Print Assumptions C11_history_independence.
 
-(** ---- third pass (1a): the failing parse that mutates.  [parse_mut_dym fires] = the parse plus, when the
-    parser result is an UnknownArgument error and [fires] (strsim::jaro found no similar long flag: not
-    modelled, both values covered), [_build_self] on every subcommand of the deepest level reached
-    ([Parser::did_you_mean_error] -> [suggestions::did_you_mean_flag]). ---- *)
+(** ---- third pass (1a): the failing parse that mutates.  [parse_mut_dym fires] = the parse plus, when
+    [fires] (the parse ended in [Parser::did_you_mean_error] and strsim::jaro found no similar long flag:
+    not modelled, both values covered), [_build_self] on every subcommand of the deepest level reached
+    ([suggestions::did_you_mean_flag]). ---- *)
 
 (** on the path of the parse itself the guards of the modelled mutation never block: it reaches the
     failing level and builds each of its subcommands (built, not named) *)
@@ -144,7 +144,6 @@ Proof. exact sugg_after_touch. Qed.
 Print Assumptions C11_dym_reaches_failing_level.
 
 Theorem C11_dym_state : forall c argv,
-  unknown_arg_result (parse_result c argv) = true ->
   snd (parse_mut_dym true c argv)
   = touch_build (build_self (fst (set_bin c argv))) (trace_path (snd (fst (parse_mut c argv)))).
 Proof. exact dym_state. Qed.
